@@ -166,7 +166,8 @@ def pureSend (v : Conn × Str × Bool × List Adapter) (hd : Option Dict) (pd : 
     (args : Args) : Except Err Sent :=
   match applyAll v.2.2.2 { path := args.path, headers := copyHeaders hd } with
   | .error e => .error e
-  | .ok ra => .ok (eraseId (assemble ⟨v.2.1, v.2.2.1, 0⟩ ra args.method pd body (respFold v.2.2.2 (decodeResp args.raw args.resp))))
+  | .ok ra => .ok (eraseId (assemble ⟨v.2.1, v.2.2.1, 0⟩ ra args.method (finalParams v.2.2.2 pd)
+      (finalBody v.2.2.2 body) (respFold v.2.2.2 (decodeResp args.raw args.resp))))
 
 theorem eraseId_assemble (impl : Impl) (ra : RA) (m : Option Str) (pd : Option UDict) (d : Body) (r : Except Err J) :
     eraseId (assemble impl ra m pd d r) = eraseId (assemble ⟨impl.address, impl.sendIds, 0⟩ ra m pd d r) := by
